@@ -2,6 +2,7 @@
 //verif:replace@C12a regexp.Compile = c12Compile
 //verif:replace@C12b regexp.Compile = c12Compile
 //verif:replace@C12c regexp.Compile = c12Compile
+//verif:replace@C04f regexp.Compile = c12Compile
 
 package clients
 
